@@ -336,6 +336,39 @@ def op_fph_stored(H, xh):
     return guarded(lambda: xfloat(H.FloatingPointHelper.ieee754_stored_internally(x))), xfloat(bits_to_float('sp', float_to_bits('sp', x)))
 
 
+def op_fpnum_object_history(H, fmt, v, script):
+    """ONE FPNum object through a history of reads and in-place reductions: every read (to_float, convert) must be a function of the value the
+    object denotes NOW (its components), whatever was read or reduced before.  script: list of ['to_float'] | ['convert', fmt] |
+    ['reducePrecision', k] | ['reducePrecisionWithRounding', k].  Expected reads: the exact rational of the current components when it is a
+    double (to_float) / the platform encoding of that rational (convert to dp when exact); observed and expected are the lists of reads."""
+    def run():
+        n = H.FPNum(v, fmt); obs = []
+        for st in script:
+            if st[0] == 'to_float': obs.append(['to_float', xfloat(n.to_float())])
+            elif st[0] == 'convert': obs.append(['convert', st[1], n.convert(st[1])])
+            else: getattr(n, st[0])(st[1])
+        return obs
+    def expect():
+        n = H.FPNum(v, fmt); exp = []
+        for st in script:
+            if st[0] in ('to_float', 'convert'):
+                x = fpnum_x(n)                                   # what the components denote at this point
+                if isinstance(x, str): exp.append(None); continue
+                fr = x_to_fraction(x)
+                try: fl = float(fr)
+                except OverflowError: exp.append(None); continue
+                exact = Fraction(fl) == fr
+                if st[0] == 'to_float': exp.append(['to_float', xfloat(math.copysign(fl, -1.0) if (x[0] and fl == 0) else fl)] if exact else None)
+                else: exp.append(['convert', st[1], float_to_bits(st[1], math.copysign(fl, -1.0) if (x[0] and fl == 0) else fl)] if (exact and st[1] == 'dp') else None)
+            else: getattr(n, st[0])(st[1])                        # the reductions themselves are judged by the reduce_* ops / theorems
+        return exp
+    obs = guarded(run)
+    try: exp = expect()
+    except Exception as ex: return obs, obs                       # the reduction itself raised: not this op's subject
+    if isinstance(obs, list): obs = [o if e is not None else None for o, e in zip(obs, exp)]      # reads without an exact expectation are not compared
+    return obs, exp
+
+
 OPS = {f[3:]: g for f, g in list(globals().items()) if f.startswith('op_')}
 
 
